@@ -27,7 +27,8 @@ THEOREMS = ['C18_tracker_is_translated', 'C18_tracker_new', 'C18_requests_per_vi
             'C18_then_left_alone', 'C18_crawl_terminates', 'C18_budget_used_up_means_finished',
             'C18_status_code_classes_are_the_sources']
 TRUSTED = [
-    'harness/translate/filters.py + coq/Lib/MiniPy.v for RedirectTracker and the filters (see C02)',
+    'harness/translate/consts.py (fail-closed AST evaluator of constant definitions) -> coq/Gen/Consts.v, regenerated every run; Proofs/ConstsAgree.v proves the model\'s constants equal to it for every value',
+        'harness/translate/filters.py + coq/Lib/MiniPy.v for RedirectTracker and the filters (see C02)',
     'coq/Model/Visit.v: hand-written model of WebSession._process_response/_process_redirect/_process_authentication, '
     'WebProcessorSession.process/_process_robots/_process_loop/_fetch_one/_handle_response, ItemSession.skip/set_status and '
     'URLItemSource.get_item - tied by the end-to-end runs of this check (request sequence, status and try_count per URL)',
